@@ -704,6 +704,10 @@ def fs_scripts(seed, n):
         "empty set:a+,b+:N;set::N;set:b+:N;poke",
         "failw failw:a;set:a+,b+:N;okw:a;poke;set:a+,b+,c-:N;poke",
         "failu set:a+,b+:N;failu:a;set:b+:N;poke",
+        # what the back-end's error names: nothing, the configured path, a child of it (recursive back-ends), both, two children
+        "shape0 failw:a:0;set:a+,b+:N;poke", "shapes failw:a:s;set:a+,b+:N;poke", "shape1 failw:a:1;set:a+,b+:N;poke",
+        "shapes1 failw:a:s1;set:a+,b-:N;poke", "shape2 failw:a:2;failw:b:1;set:a+,b+,c+:N;okw:a;poke;set:a+,b+,c+,d-:P;poke",
+        "shapeu set:a+,b+:N;failu:a:1;set:b+:N;poke", "shapeu2 set:a+,b+:N;failu:a:2;failu:b:s;set::N;poke",
     ]
     out = [f"f{i}_{l}" for i, l in enumerate(fixed)]
     # bounded-exhaustive: every sequence of up to 3 path-set changes over a universe of 2 paths x 2 modes (incl. empty)
@@ -723,9 +727,9 @@ def fs_scripts(seed, n):
         for _ in range(r.randint(1, 7)):
             k = r.random()
             if k < 0.12: ops.append(f"hook:{r.choice(names)}:{paths()}:{r.choice('NNP')}")
-            elif k < 0.2: ops.append(f"failw:{r.choice(names)}")
+            elif k < 0.2: ops.append(f"failw:{r.choice(names)}" + r.choice(["", "", ":0", ":s", ":1", ":1", ":s1", ":2"]))
             elif k < 0.25: ops.append(f"okw:{r.choice(names)}")
-            elif k < 0.3 and not flips: ops.append(f"failu:{r.choice(names)}")
+            elif k < 0.3 and not flips: ops.append(f"failu:{r.choice(names)}" + r.choice(["", ":s", ":1", ":2"]))
             elif k < 0.4: ops.append("poke")
             else: ops.append(f"set:{paths()}:{r.choice('NNNP')}")
         ops.append("poke")
@@ -766,10 +770,12 @@ def fs_oracle(script, trace, conf):
             wx_ = [w for w in want if w[:-1] == x]
             if wx_ and wx_[0] not in got:
                 return f"path {wx_[0]} failed to register earlier, stopped failing before the last change, is configured — and is still not registered: the failed registration was never attempted again"
-        failing = set()
+        failing = set(); worth = {}
         segs = trace.split(";"); si = 0
         for o in ops:
             p = o.split(":")
+            # one runtime error per path the back-end's error names; one (for the configured path) when it names none
+            if p[0] in ("failw", "failu"): worth[p[1]] = 2 if len(p) > 2 and p[2] in ("s1", "2") else 1
             if p[0] == "failw": failing.add(p[1])
             elif p[0] == "okw": failing.discard(p[1])
             if p[0] not in ("set", "poke") or si >= len(segs): continue     # only these two produce a trace segment
@@ -778,8 +784,8 @@ def fs_oracle(script, trace, conf):
             if len(f) != 3 or not f[1].startswith("e"): continue
             calls = [c for c in f[0].split(",") if c]
             if any(c.startswith("unwatch:") for c in calls): continue
-            nfail = sum(1 for c in calls if c.startswith("watch:") and c.split(":")[1][:-1] in failing)
-            if int(f[1][1:]) != nfail: return f"{nfail} failing watch attempt(s) in step `{o}` ({f[0]}) but {f[1][1:]} runtime error(s) reported"
+            nfail = sum(worth.get(c.split(":")[1][:-1], 1) for c in calls if c.startswith("watch:") and c.split(":")[1][:-1] in failing)
+            if int(f[1][1:]) != nfail: return f"the failing watch attempt(s) in step `{o}` ({f[0]}) name {nfail} path(s) in all (one error per named path, one for an error naming none) but {f[1][1:]} runtime error(s) were reported"
         return None
     if want != got: return f"configured {want or 'nothing'} but registered {got or live} once changes stopped"
     if not want and live != "none": return "configured set is empty but the watcher was not released"
@@ -987,7 +993,7 @@ def c15_fs(ctx):
     # the fs worker's side of C15: one runtime error per failed watch / unwatch attempt (the e<n> field of every op), loop continues
     xs = c13_streams(dict(ctx, pid13="C15"))
     for x in xs:
-        x.name = "fs-worker-errors"; x.oracle_failures = [f for f in x.oracle_failures if "injected fault" in f[3] or "runtime error(s) reported" in f[3]]
+        x.name = "fs-worker-errors"; x.oracle_failures = [f for f in x.oracle_failures if "injected fault" in f[3] or "runtime error(s) reported" in f[3] or "runtime error(s) were reported" in f[3]]
     return xs
 
 PLANS["C15"] = dict(
